@@ -120,6 +120,11 @@ func OpenGtp5g(wg *sync.WaitGroup, addr string, mtu uint32) (*Gtp5g, error) {
 }
 
 func (g *Gtp5g) Close() {
+	// first the periodic-report server: a query it has in flight needs the
+	// netlink sockets and the mux closed below
+	if g.ps != nil {
+		g.ps.Close()
+	}
 	if g.conn != nil {
 		g.conn.Close()
 	}
@@ -134,9 +139,6 @@ func (g *Gtp5g) Close() {
 	}
 	if g.bsnl != nil {
 		g.bsnl.Close()
-	}
-	if g.ps != nil {
-		g.ps.Close()
 	}
 }
 
